@@ -259,7 +259,7 @@ public:
     bool seq = !c11 && g.rng.chance(8);
     p.params = {nkeys, cap, layout, prefill, c11 ? 1 : 0};
     int nextv = 100;
-    int nt = seq ? 1 : g.rng.range(2, g.tier ? 4 : 3);
+    int nt = seq ? 1 : g.rng.range(2, (g.tier || g.rng.chance(20)) ? 4 : 3);
     p.threads.resize(nt);
     for (int t = 0; t < nt; t++) {
       if (c11 && t == 0) {
